@@ -30,7 +30,9 @@ conditions (KF-C01-1/2 → FX-C01-ca9f3e6, FX-C01-feb1ed1, `Lemmas/BracketHost.l
 `printSplit_normal`), "the result does not end with white space" (KF-C02-2 →
 FX-C02-16f182c: `printed_last`).
 
-The quoted mode, and idempotence across spellings, stay with the oracle (`UNPROVED`).
+The quoted mode stays with the oracle (`UNPROVED`).  Spelling-insensitivity of the whole function on
+strings is `Props/C02Spelling.lean`; together with this file: `canonicalize(canonicalize(T u)) =
+canonicalize(T u) = canonicalize(u)` for every transformation proved there.
 -/
 namespace Ural.Props.C02
 open Ural Ural.Py Ural.UrlParts Ural.Quote Ural.Canonicalize Ural.UrlRoundTrip Ural.CanonRoundTrip
